@@ -35,6 +35,10 @@ PC = "pysnark/poseidon_constants.py"
 GG = "pysnark/ggh_hash.py"
 GM = "pysnark/gmpy.py"
 NB = "pysnark/nobackend.py"
+LI = "pysnark/libsnark/__init__.py"
+LS = "pysnark/libsnark/backend.py"          # driven in C19 through the recording stand-in harness/stubs/libsnark (not libsnark itself)
+LG = "pysnark/libsnark/backendgg.py"
+LT = "pysnark/libsnark/tosnarkjsgg.py"
 
 ALL = "*"      # every function and the module body of the file
 
@@ -59,7 +63,7 @@ ANCHORS = {
     "C16": CORE + [(PK, ALL)],
     "C17": CORE + [(FX, ALL)],
     "C18": [(AX, ALL), (RT, "final"), (RT, "<module>"), (SJ, "prove"), (ZK, "prove"), (QT, "prove")],
-    "C19": [(RT, "<module>"), (ZB, ALL), (ZP, ALL), (NB, ALL)],
+    "C19": [(RT, "<module>"), (ZB, ALL), (ZP, ALL), (NB, ALL), (LI, ALL), (LS, ALL), (LG, ALL), (LT, ALL)],
     "C20": CORE + [(PH, ALL), (PC, "<module>"), (GG, ALL), (RT, "<module>")],
 }
 
